@@ -69,7 +69,7 @@ def gen_value(rng, t, max_len=4, greedy_len=None):
                     cap = min(cap, m['size'])
                 sizer_t = next((x['t'] for x in t['ms'] if x['n'] == s), None)
                 if sizer_t and sizer_t['k'] == 'prim' and sizer_t['p'] in INT_RANGE:
-                    cap = min(cap, INT_RANGE[sizer_t['p']][1])
+                    cap = max(0, min(cap, INT_RANGE[sizer_t['p']][1] - m.get('shift', 0)))
                 lens[s] = min(lens.get(s, cap), cap)
         for s in lens:
             r = rng.random()
